@@ -408,10 +408,16 @@ def run_scenario(sc, fails_out):
                     counter["at"] = None
                     if crashed is None:
                         break
-                    # the "dead" writer's lock dies with the process
+                    # the "dead" writer's lock dies with the process: the kernel drops the lock when the descriptor
+                    # goes away, nobody runs release() - the lock FILE stays in the directory
                     try:
-                        if w.writelock:
-                            w.writelock.release()
+                        lk = w.writelock
+                        if lk is not None and getattr(lk, "fd", None) is not None:
+                            os.close(lk.fd)
+                            lk.fd = None
+                            lk.locked = False
+                        elif lk is not None:
+                            lk.release()
                     except Exception:
                         pass
                     tag = "C02-crash@%d(%s): " % (k, crashed.split()[0])
@@ -750,6 +756,47 @@ def check_undelete(fails_out):
                           "corpus": None})
 
 
+def check_merge_policy(fails_out):
+    """C06/C07: the DEFAULT merge policy only starts merging once there are more than four segments and keeps larger
+    segments unchanged: a bulk load followed by many small commits (add / update / delete), checked after every commit"""
+    from whoosh.filedb.filestore import RamStorage
+    from whoosh import query
+    for bulk in (60, 7):
+        ix = RamStorage().create_index(schema())
+        model = {}
+        w = ix.writer()
+        for i in range(bulk):
+            d = {"id": "b%d" % i, "path": "/p/b%d" % i, "body": "alfa bravo" if i % 2 else "alfa", "tag": "red"}
+            w.add_document(**d)
+            model[d["id"]] = d
+        w.commit()
+        for step in range(12):
+            w = ix.writer()
+            d = {"id": "s%d" % step, "path": "/p/s%d" % step, "body": "charlie", "tag": "blue"}
+            w.add_document(**d)
+            model[d["id"]] = d
+            if step % 3 == 1:
+                u = {"id": "b%d" % step, "path": "/p/b%d" % step, "body": "delta", "tag": "green"}
+                w.update_document(**u)
+                model[u["id"]] = u
+            if step % 4 == 2:
+                w.delete_by_term("id", "b%d" % (step + 1))
+                model.pop("b%d" % (step + 1), None)
+            w.commit()
+            with ix.searcher() as s_:
+                ids = sorted(h["id"] for h in s_.search(query.Every(), limit=None))
+                alfa = sorted(h["id"] for h in s_.search(query.Term("body", "alfa"), limit=None))
+                nseg = len(s_.reader().leaf_readers())
+            exp_ids = sorted(model)
+            exp_alfa = sorted(k for k, v in model.items() if "alfa" in v["body"].split())
+            if ids != exp_ids or alfa != exp_alfa:
+                fails_out.append({"case": "C06-merge-policy", "detail": "bulk load of %d documents, then small commit #%d with the default merge "
+                                  "policy (%d segments afterwards): %d documents instead of %d (missing %r...), body:alfa %d instead of %d"
+                                  % (bulk, step, nseg, len(ids), len(exp_ids), sorted(set(exp_ids) - set(ids))[:4], len(alfa), len(exp_alfa)),
+                                  "corpus": None})
+                return
+
+
 def check_buffered(rnd, fails_out):
     """C04 (no committed update is lost) through the BufferedWriter / AsyncWriter front-ends: adds, updates and
     deletions, flushed by commit() or close(), must all be in the reopened index."""
@@ -818,7 +865,185 @@ def run(seeds):
     return fails, n
 
 
+def check_mpwriter(fails_out):
+    """C06/C08/C04 through the multi-process writer front-end (ix.writer(procs=2, batchsize=2)) and its serial twin:
+    stored values, column values (incl. a column-only field), a grouped block staying adjacent and in order, and
+    cancel() releasing the lock - also when nothing was added"""
+    from whoosh import fields, columns, query, index
+    from whoosh.writing import LockError
+    root = tempfile.mkdtemp(prefix="mp_")
+    try:
+        sch = fields.Schema(id=fields.ID(stored=True, unique=True), kind=fields.ID(stored=True), body=fields.TEXT(stored=True),
+                            n=fields.NUMERIC(sortable=True, stored=True), col=fields.COLUMN(columns.VarBytesColumn()))
+        for front in ("procs", "serial"):
+            d = os.path.join(root, front)
+            os.mkdir(d)
+            ix = index.create_in(d, sch)
+
+            def mkw():
+                if front == "procs":
+                    return ix.writer(procs=2, batchsize=2)
+                from whoosh.multiproc import SerialMpWriter
+                return SerialMpWriter(ix, procs=2, batchsize=2)
+            docs = []
+            w = mkw()
+            for i in range(3):
+                docs.append({"id": "a%d" % i, "kind": "plain", "body": "alfa w%d" % i, "n": i, "col": b"c-a%d" % i})
+                w.add_document(**docs[-1])
+            # (SerialMpWriter is a test helper that deals documents round-robin: it does not support groups)
+            if front == "procs":
+                w.start_group()
+            for j, kind in enumerate(("parent", "child", "child", "child")):
+                docs.append({"id": "g%d" % j, "kind": kind, "body": "bravo w%d" % j, "n": 100 + j, "col": b"c-g%d" % j})
+                w.add_document(**docs[-1])
+            if front == "procs":
+                w.end_group()
+            for i in range(3, 6):
+                docs.append({"id": "a%d" % i, "kind": "plain", "body": "alfa w%d" % i, "n": i, "col": b"c-a%d" % i})
+                w.add_document(**docs[-1])
+            # more groups, of a size that does not divide the batch size
+            more_groups = []
+            for g in range(8):
+                if front == "procs":
+                    w.start_group()
+                ids_ = []
+                for j, kind in enumerate(("parent", "child", "child")):
+                    docs.append({"id": "h%d_%d" % (g, j), "kind": kind, "body": "hotel tok%d" % g, "n": 200 + 10 * g + j, "col": b"h"})
+                    w.add_document(**docs[-1])
+                    ids_.append(docs[-1]["id"])
+                more_groups.append(ids_)
+                if front == "procs":
+                    w.end_group()
+            w.commit()
+            with ix.searcher() as s_:
+                r = s_.reader()
+                got = {}
+                order = []
+                cr_n, cr_c = r.column_reader("n"), r.column_reader("col")
+                for dn in r.all_doc_ids():
+                    sf = r.stored_fields(dn)
+                    order.append(sf["id"])
+                    got[sf["id"]] = (sf, cr_n[dn], cr_c[dn])
+                for dd in docs:
+                    g = got.get(dd["id"])
+                    if g is None or g[0].get("body") != dd["body"] or g[1] != dd["n"] or g[2] != dd["col"]:
+                        fails_out.append({"case": "C08-mpwriter-values", "detail": "writer front-end %s: document %s reads back %r, expected body %r "
+                                          "n %r col %r" % (front, dd["id"], g, dd["body"], dd["n"], dd["col"]), "corpus": None})
+                        break
+                gi = [order.index("g%d" % j) for j in range(4) if "g%d" % j in order]
+                if front != "procs":
+                    continue
+                for ids_ in more_groups:
+                    pos_ = [order.index(x) for x in ids_ if x in order]
+                    if len(pos_) != 3 or pos_ != list(range(pos_[0], pos_[0] + 3)):
+                        fails_out.append({"case": "C06-mpwriter-group", "detail": "writer front-end procs: the documents of group %r are at positions "
+                                          "%r (must be adjacent and in order); order %r" % (ids_, pos_, order), "corpus": None})
+                        break
+                if gi != list(range(gi[0], gi[0] + 4)) if len(gi) == 4 else True:
+                    fails_out.append({"case": "C06-mpwriter-group", "detail": "writer front-end %s: the grouped documents g0..g3 are at positions %r "
+                                      "of %r (must be adjacent and in order)" % (front, gi, order), "corpus": None})
+                par = query.NestedParent(query.Term("kind", "parent"), query.And([query.Term("body", "w2"), query.Term("body", "bravo")]))
+                hits = sorted(h["id"] for h in s_.search(par, limit=None))
+                if hits != ["g0"]:
+                    fails_out.append({"case": "C06-mpwriter-group", "detail": "writer front-end %s: NestedParent(kind:parent, body:(w2 AND bravo)) -> %r expected "
+                                      "['g0'] (document order %r)" % (front, hits, order), "corpus": None})
+            # cancel: with and without additions; the lock must be free afterwards
+            for adds in (0, 3):
+                w = mkw()
+                for i in range(adds):
+                    w.add_document(id="x%d" % i, kind="plain", body="zulu", n=1, col=b"x")
+                w.cancel()
+                try:
+                    w2 = ix.writer(timeout=0.5)
+                    w2.cancel()
+                except LockError:
+                    fails_out.append({"case": "C04-mpwriter-cancel-lock", "detail": "writer front-end %s: after cancel() of a writer with %d added "
+                                      "documents the index is still locked" % (front, adds), "corpus": None})
+                    break
+                with ix.searcher() as s_:
+                    if s_.doc_count() != len(docs):
+                        fails_out.append({"case": "C07-mpwriter-cancel", "detail": "writer front-end %s: cancel() changed the index: %d documents"
+                                          % (front, s_.doc_count()), "corpus": None})
+    except Exception as e:
+        fails_out.append({"case": "exception-mpwriter", "detail": "%s: %s | %s" % (type(e).__name__, e, traceback.format_exc()[-500:]), "corpus": None})
+    finally:
+        shutil.rmtree(root, ignore_errors=True)
+
+
+def check_async_deferred(fails_out):
+    """C04/C03: an AsyncWriter created while another writer holds the lock buffers its calls and replays them in a
+    thread once the lock is free: every buffered add / delete / update must arrive, commit arguments (optimize,
+    mergetype) must be honoured, and the lock must be free afterwards"""
+    from whoosh import index, writing, query
+    from whoosh.writing import LockError
+    root = tempfile.mkdtemp(prefix="asy_")
+    try:
+        for kwargs, label in (({}, "plain"), ({"optimize": True}, "optimize"), ({"mergetype": writing.CLEAR}, "clear")):
+            d = os.path.join(root, label)
+            os.mkdir(d)
+            ix = index.create_in(d, schema())
+            for i in range(3):
+                w = ix.writer()
+                w.add_document(id="b%d" % i, path="/p/b%d" % i, body="alfa", tag="red")
+                w.commit(merge=False)
+            blocker = ix.writer()
+            blocker.add_document(id="blk", path="/p/blk", body="bravo", tag="red")
+            aw = writing.AsyncWriter(ix, delay=0.05)
+            aw.add_document(id="n1", path="/p/n1", body="charlie", tag="blue")
+            aw.delete_by_term("id", "b1")
+            aw.update_document(id="b2", path="/p/b2", body="delta", tag="green")
+            aw.commit(**kwargs)
+            blocker.commit(merge=False)
+            aw.join(20)
+            if aw.is_alive():
+                fails_out.append({"case": "C04-async-deferred", "detail": "deferred AsyncWriter (%s) did not finish" % label, "corpus": None})
+                continue
+            with index.open_dir(d).searcher() as s_:
+                ids = sorted(h["id"] for h in s_.search(query.Every(), limit=None))
+                b2 = [h["body"] for h in s_.search(query.Term("id", "b2"), limit=None)]
+                nseg = len(s_.reader().leaf_readers())
+            exp = ["n1", "b2"] if label == "clear" else ["b0", "b2", "blk", "n1"]
+            if ids != sorted(exp) or b2 != ["delta"]:
+                fails_out.append({"case": "C04-async-deferred", "detail": "AsyncWriter created while the index was locked, commit(%s): index "
+                                  "holds %r (b2 -> %r), expected %r (b2 -> ['delta'])" % (label, ids, b2, sorted(exp)), "corpus": None})
+            elif label == "optimize" and nseg != 1:
+                fails_out.append({"case": "C03-async-commit-args", "detail": "deferred AsyncWriter.commit(optimize=True) left %d segments: the "
+                                  "commit arguments were not passed on" % nseg, "corpus": None})
+            try:
+                w2 = ix.writer(timeout=0.5)
+                w2.cancel()
+            except LockError:
+                fails_out.append({"case": "C04-async-deferred", "detail": "index still locked after the deferred AsyncWriter (%s)" % label, "corpus": None})
+    except Exception as e:
+        fails_out.append({"case": "exception-async", "detail": "%s: %s | %s" % (type(e).__name__, e, traceback.format_exc()[-400:]), "corpus": None})
+    finally:
+        shutil.rmtree(root, ignore_errors=True)
+
+
+def run_deterministic(fails):
+    check_mpwriter(fails)
+    check_async_deferred(fails)
+    check_toc_selection(fails)
+    check_rejected_add(fails)
+    check_ram_second_writer(fails)
+    check_undelete(fails)
+    check_merge_policy(fails)
+
+
 def main():
+    if sys.argv[1] == "--deterministic":
+        # replay of the deterministic families (cases without a scenario); optional second argument: case name
+        tmp = tempfile.mkdtemp(prefix="ib_")
+        os.environ["TMPDIR"] = tmp
+        tempfile.tempdir = tmp
+        fails = []
+        run_deterministic(fails)
+        want = sys.argv[2] if len(sys.argv) > 2 else None
+        hit = [f for f in fails if want is None or f["case"] == want]
+        for f in hit:
+            print("FAIL", f["case"], "|", f["detail"])
+        shutil.rmtree(tmp, ignore_errors=True)
+        sys.exit(1 if hit else 0)
     if sys.argv[1] == "--scenario":
         tmp = tempfile.mkdtemp(prefix="ib_")
         os.environ["TMPDIR"] = tmp
@@ -839,10 +1064,7 @@ def main():
     tmp = tempfile.mkdtemp(prefix="ib_")
     os.environ["TMPDIR"] = tmp
     tempfile.tempdir = tmp
-    check_toc_selection(fails)
-    check_rejected_add(fails)
-    check_ram_second_writer(fails)
-    check_undelete(fails)
+    run_deterministic(fails)
     shutil.rmtree(tmp, ignore_errors=True)
     seen, uniq = set(), []
     for f in fails:
